@@ -10,8 +10,7 @@
 (* contract invariants (NoOverlap, SizesOk) keep holding on every state.           *)
 EXTENDS Allocator, TLC
 
-KnownIds == {"C07-KF1", "C07-KF2", "C07-KF3", "C07-KF4", "C07-KF5", "C07-KF6", "C07-KF8",
-             "C07-KF9", "C07-KF10", "C07-KF11", "C07-KF12", "C07-KF13", "C07-KF14"}
+KnownIds == {"C07-KF5", "C07-KF11", "C07-KF13", "C07-KF14"}
 
 Same == UNCHANGED <<live, pend>>
 IsAllocOk(e) == e.op = "alloc" /\ e.ok
